@@ -40,6 +40,8 @@ class State:
         self.trace = []         # human readable events on this path
         self.facts = set()      # terms already asserted as typing facts (dedup)
         self.heap = {}          # oid -> dict (object fields / dict) or list
+        self.syms = set()       # constant / function symbols occurring in pc
+        self.defs = {}          # fact -> name of the constant it defines (fresh when the fact was assumed)
         self.handling = None
         self.loop_depth = 0
 
@@ -51,6 +53,8 @@ class State:
         n.ghost = dict(self.ghost)
         n.trace = list(self.trace)
         n.heap = {k: (list(v) if isinstance(v, list) else dict(v)) for k, v in self.heap.items()}
+        n.syms = set(self.syms)
+        n.defs = dict(self.defs)
         n.handling = self.handling
         n.loop_depth = self.loop_depth
         for k in ("old", "entry_env", "in_quantifier"):
@@ -102,6 +106,14 @@ class State:
                 return          # a typing fact about a quantified element: meaningless outside its binder
             self.facts.add(t)
             self.pc.append(t)
+            sy = tm.symbols(t)
+            if t.op == "=":
+                a, b = t.args
+                for x, y in ((a, b), (b, a)):
+                    if x.op == "const" and x.val not in self.syms and x.val not in tm.symbols(y):
+                        self.defs[t] = x.val
+                        break
+            self.syms |= sy
 
     @property
     def locals(self):
@@ -391,7 +403,7 @@ class Interp:
                 return True if not assertions else self.feasible(st)
             # pc alone is feasible (invariant of the exploration): only the conjuncts that share
             # symbols, transitively, with the new condition can make the conjunction unsatisfiable
-            assertions = tm.cone(assertions, [extra])
+            assertions = tm.cone(assertions, [extra], st.defs)
             assertions.append(extra)
         key = frozenset(assertions)
         r = self.feas_cache.get(key)
